@@ -12,7 +12,7 @@ from .common import V, run_cases
 
 PROP = "C05"
 BUDGET = {"quick": 900, "thorough": 3400}
-NS = {"quick": (1, 2, 3, 4), "thorough": (0, 1, 2, 3, 4, 5, 6)}
+NS = {"quick": (1, 2, 3, 4), "thorough": (0, 1, 2, 3, 4, 5, 6, 7)}
 
 META = dict(
     rule="configs-as-programs x tables x front ends: tables of n rows (daily timestamps in increasing and in shuffled, non-monotonic order; columns v,w and "
@@ -28,7 +28,7 @@ META = dict(
          "flags equal the real test function called directly on those rows with the context's parameters (the probe "
          "additionally checks the inp/tinp/zinp/lat/lon it received). non-trivial = the window excludes at least one row "
          "or the program has two contexts",
-    bounds={"quick": {"rows": "1..4", "contexts": 2}, "thorough": {"rows": "0..6", "contexts": 2}},
+    bounds={"quick": {"rows": "1..4", "contexts": 2}, "thorough": {"rows": "0..7", "contexts": "2 (+ A,B,A)"}},
     not_judged=["region subsetting (documented as not implemented)", "tz-aware window strings against naive data",
                 "tests whose direct call raises on the window rows (C18 covers dropping out)"],
     assumptions=["C15: the carrier a stream hands to the test (Series/Index/ndarray) does not change the flags"],
@@ -298,6 +298,9 @@ def tasks(tier):
             ts.append(("axis", 4, fe))
         if fe != "qcconfig":
             ts.append(("three", 4, fe))
+            if tier == "thorough":
+                ts.append(("three", 6, fe))
+                ts.append(("three", 3, fe))
     for n in NS[tier]:
         for fe in S.FRONTENDS:
             ts.append(("one", n, fe))
